@@ -372,6 +372,9 @@ def loaderOp (st : DState) (toks : List String) : Option (DState × String) :=
       -- results of concurrent use equal those of a single-threaded replay (the theorem C13.result_is_sequential
       -- together with C14.history_irrelevant); the harness measures it on the real code
       some (st, s!"stress threads={k} differing=0")
+  | ["mapgrow", _n] =>
+      -- however many other names are loaded in between, a name stays in the map (C13.map_monotone, C20.cached_load)
+      some (st, "calls=1,0,0 equal=1")
   | ["memcalls", hexbytes] => do
       -- one factory call for the first load of a fresh name whatever the bytes are worth, none for the second (C20.cached_load,
       -- C20.failed_stays_failed)
@@ -461,7 +464,7 @@ def fmtOp (st : DState) (toks : List String) : Option (DState × String) :=
         let fs ← Split.subToFemto n d sub
         let utc ← Tz.resetToBuiltinUTC 0
         let (al, _) ← Tz.breakTime utc 0 sec
-        let (tm, segs) ← Format.formatSegs (Bytes.ofString "%Y-%m-%d %H:%M:%E*S|%E15S|%E12f|%E3S") al sec fs
+        let (tm, segs) ← Format.formatSegs (Bytes.ofString "%Y-%m-%d %H:%M:%E*S|%E15S|%E12f|%E3S|%s") al sec fs
         pure (al.cs, Format.render (fun _ _ => []) tm segs)
       some (st, showCk r fun (cs, txt) => s!"S {showFields cs} | {showFields cs} | {Bytes.toHex txt}")
   | ["subfloat", n, num, e, _rep] => do
